@@ -43,6 +43,7 @@ type Profile struct {
 	PGlobal       int  // % of cases run with a global conf.Coercers override (String, Bool or Time) installed
 	PStructIn     int  // % of top-level struct records handed over as a Go struct value instead of a map
 	PTopPtrRecord int  // % of top-level schemas that are Ptr(Struct) over a flat record with exported keys
+	PTypedRoot    int  // % of CustomFunc / Preprocess nodes drawn for the root that stay the root (their typed Parse / Validate)
 	PSiblings     int  // % of top-level structs given a catching string field whose test usually fails, next to a slice or struct field with at least two tests
 	PRewrite      int  // % of slices of strings whose item schema rewrites items in place (Catch over a failing test, Default over a zero item) under a slice test about the contents
 	PFalsy        int  // % of non-string primitive leaves given a falsy but present input (0, 0.0, false, the zero time)
@@ -60,7 +61,7 @@ func DefaultProfile() Profile {
 		Name: "default", MaxDepth: 3, MaxFields: 3, MaxElems: 3,
 		PCatch: 20, PDefault: 20, PRequired: 45, PTests: 60, PUserTest: 25, PPT: 15, PPTErr: 25, POpts: 20,
 		PIssuePath: 0, PTags: 30, PCustom: 5, PPre: 5, PPtr: 15, PSlice: 20, PStruct: 25,
-		PWrongType: 12, PAbsent: 18, PInvalid: 30, PCoercer: 4, PLayout: 30, PPrefill: 30, PExtra: 30, PGlobal: 3, PSpecialFloat: 6, PStructIn: 10,
+		PWrongType: 12, PAbsent: 18, PInvalid: 30, PCoercer: 4, PLayout: 30, PPrefill: 30, PExtra: 30, PGlobal: 3, PSpecialFloat: 6, PStructIn: 10, PTypedRoot: 4,
 		Kinds: []string{KString, KString, KInt, KInt, KInt32, KInt64, KFloat64, KFloat32, KBool, KTime},
 	}
 }
@@ -399,9 +400,14 @@ func (g *Gen) node(depth int) *Node {
 			return n
 		case c < g.P.PStruct+g.P.PSlice+g.P.PPtr:
 			n := &Node{Kind: KPtr, Elem: g.node(depth + 1)}
-			if n.Elem.Kind == KPre || (n.Elem.Kind == KPtr && (n.Elem.Elem.Kind == KPtr || !r.P(60))) {
-				// pointer chains up to depth 2 (a pointer to a pointer), no Preprocess behind pointers
+			if n.Elem.Kind == KPtr && (n.Elem.Elem.Kind == KPtr || n.Elem.Elem.Kind == KPre || !r.P(60)) {
+				// pointer chains up to depth 2 (a pointer to a pointer)
 				n.Elem = g.prim(Pick(r, g.P.Kinds))
+			}
+			if n.Elem.Kind == KPre && r.Fork(0xb1a).P(50) {
+				// a Preprocess behind a pointer whose output is blank although the pointer's input is there:
+				// absence is decided again, on the output, by the wrapped schema's own modifiers
+				n.Elem.PreOp = "blank"
 			}
 			if IsPrim(n.Elem.Kind) && n.Elem.Coercer != "" && !n.Elem.Named && r.P(50) {
 				n.PtrCo = true
@@ -423,7 +429,7 @@ func (g *Gen) node(depth int) *Node {
 	if c < g.P.PCustom+g.P.PPre {
 		inner := g.prim(KString)
 		inner.Coercer = ""
-		return &Node{Kind: KPre, Elem: inner, PreOp: Pick(r, []string{"upper", "upper", "trim", "err", "issue", "wrap"}), PreID: g.id()}
+		return &Node{Kind: KPre, Elem: inner, PreOp: Pick(r, []string{"upper", "upper", "trim", "err", "issue", "wrap", "blank"}), PreID: g.id()}
 	}
 	return g.prim(Pick(r, g.P.Kinds))
 }
@@ -579,6 +585,17 @@ func (g *Gen) rewriteScenario(n *Node) {
 }
 
 func (g *Gen) Schema() *Node {
+	if g.P.PTypedRoot > 0 && g.R.Fork(0x7007).P(g.P.PTypedRoot) {
+		// CustomFunc / Preprocess as the execution root: their own typed Parse / Validate entry points
+		if g.R.P(45) {
+			t := TestSpec{ID: g.id(), User: g.userPred(KCustom)}
+			g.opts(&t)
+			return &Node{Kind: KCustom, Tests: []TestSpec{t}, CustomMut: g.R.P(25)}
+		}
+		inner := g.prim(KString)
+		inner.Coercer = ""
+		return &Node{Kind: KPre, Elem: inner, PreOp: Pick(g.R, []string{"upper", "upper", "trim", "err", "issue", "wrap"}), PreID: g.id()}
+	}
 	if g.P.PTopPtrRecord > 0 && g.R.P(g.P.PTopPtrRecord) {
 		g.forceExported = true
 		e := g.strct(g.P.MaxDepth - 1) // (its fields are primitives)
@@ -601,7 +618,7 @@ func (g *Gen) Schema() *Node {
 		return g.strct(0)
 	case c < 82:
 		n := g.node(0)
-		if n.Kind == KPre || n.Kind == KCustom { // their top-level API is typed; covered through struct fields
+		if (n.Kind == KPre || n.Kind == KCustom) && g.P.PTypedRoot == 0 {
 			return g.strct(0)
 		}
 		return n
